@@ -19,7 +19,8 @@ def vf1(ctx, c):
     repo = ctx.repo
     fn = repo.method(VF, "save_virtual_file")
     where = repo.loc(fn, fn.node)
-    g = CFG(fn.node)
+    fn_node = _inline_raising_helpers(repo, fn)
+    g = CFG(fn_node)
     writes = g.find(lambda k, n: k == "stmt" and any(U(x.func).endswith(".write_file") for x in ast.walk(n) if isinstance(x, ast.Call)))
     params = [p for p in fn.params if p != "self"]
     ap = params[0] if params else "append_mode"
@@ -40,10 +41,10 @@ def vf1(ctx, c):
             form = isinstance(t, ast.BoolOp) and isinstance(t.op, ast.And) and sorted(U(v) for v in t.values) == sorted(["self.file_exists", "not %s" % ap])
             if form and w not in g.reachable(avoid_edges=[(gd, False)]) and g.only_raises_after(gd, True):
                 ok = True
-        c.check(ok, "save_virtual_file:write@%s" % _branch_kind(fn.node, node), "dominated by `file_exists and not append_mode -> raise`", "write not dominated by the overwrite guard",
+        c.check(ok, "save_virtual_file:write@%s" % _branch_kind(fn_node, node), "dominated by `file_exists and not append_mode -> raise`", "write not dominated by the overwrite guard",
                 "VirtualFile.save_virtual_file reaches %s without passing the guard that refuses to overwrite an existing file when --append was not given" % U(node), repo.loc(fn, node))
     # per kind branch: container class, add_files(whole list), set_buffer(container.get_buffer()) before write
-    branches = [n for n in body_without_doc(fn.node) if isinstance(n, ast.If) and "virtual_file_type" in U(n.test)]
+    branches = [n for n in body_without_doc(fn_node) if isinstance(n, ast.If) and "virtual_file_type" in U(n.test)]
     c.floor("container kinds handled by save_virtual_file", len(branches), 3)
     seen = set()
     for b in branches:
@@ -87,10 +88,18 @@ def vf1(ctx, c):
             c.finding("save_virtual_file:%s" % k, "kind not handled", "save_virtual_file has no branch for %s" % k, where)
     # add_coco_file appends at the end
     ac = repo.method(VF, "add_coco_file")
-    t = [U(s) for s in body_without_doc(ac.node)]
     p = [x for x in ac.params if x != "self"][0]
-    c.check(t == ["self.coco_file_list.append(%s)" % p], "add_coco_file", "appends the file at the end of the list", "does %s" % t,
-            "VirtualFile.add_coco_file must append the new file after the ones already stored; it does %s" % t, repo.loc(ac, ac.node))
+    muts = [n for n in ast.walk(ac.node) if isinstance(n, ast.Call) and isinstance(n.func, ast.Attribute) and U(n.func.value) == "self.coco_file_list"]
+    stores = [n for n in ast.walk(ac.node) if isinstance(n, (ast.Assign, ast.AugAssign)) and "coco_file_list" in U(n)]
+    appends = [n for n in muts if n.func.attr == "append" and [U(a) for a in n.args] == [p]]
+    others = [n for n in muts if n.func.attr in ("insert", "extend", "pop", "remove", "clear", "reverse", "sort") or (n.func.attr == "append" and n not in appends)]
+    if len(appends) == 1 and not others and not stores:
+        c.ok("add_coco_file", "appends the file at the end of the list", repo.loc(ac, ac.node))
+    elif others or stores:
+        c.finding("add_coco_file", "list changed other than by appending the new file: %s" % [U(n)[:50] for n in others + stores],
+                  "VirtualFile.add_coco_file must append the new file after the ones already stored; it does %s" % [U(n)[:60] for n in others + stores], repo.loc(ac, ac.node))
+    else:
+        c.undecided("add_coco_file", "append-not-found", "", repo.loc(ac, ac.node))
     # add_files of the container base: in order
     af = repo.method("VirtualFileContainer", "add_files")
     loops = [n for n in ast.walk(af.node) if isinstance(n, ast.For)]
@@ -104,6 +113,43 @@ def vf1(ctx, c):
         t = [U(s) for s in body_without_doc(bf.node)]
         c.check(t == ["self.buffer.extend(%s.data)" % p], "BinaryFile.add_file", "raw image = the file's data", "does %s" % t,
                 "BinaryFile.add_file must append exactly the data bytes; it does %s" % t, repo.loc(bf, bf.node))
+
+
+def _inline_raising_helpers(repo, fn):
+    """copy of the function with calls `self.helper(args)` (statement level) replaced by the helper's body when the helper can raise:
+    a guard extracted into a method keeps its meaning"""
+    import copy
+    node = copy.deepcopy(fn.node)
+    C = fn.cls
+
+    class Inl(ast.NodeTransformer):
+        def visit_Expr(self, st):
+            v = st.value
+            if isinstance(v, ast.Call) and isinstance(v.func, ast.Attribute) and U(v.func.value) == "self":
+                h = repo.lookup(C, v.func.attr)
+                if h is not None and h is not fn and any(isinstance(x, ast.Raise) for x in ast.walk(h.node)) and \
+                        not any(isinstance(x, ast.Return) and x.value is not None for x in ast.walk(h.node)) and len(h.node.body) <= 6:
+                    params = [p for p in h.params if p != "self"]
+                    args = [U(a) for a in v.args]
+                    if len(args) == len(params) and not v.keywords:
+                        mapping = dict(zip(params, v.args))
+
+                        class Sub(ast.NodeTransformer):
+                            def visit_Name(self, n):
+                                if n.id in mapping and isinstance(n.ctx, ast.Load):
+                                    return copy.deepcopy(mapping[n.id])
+                                return n
+                        body = [Sub().visit(copy.deepcopy(b)) for b in body_without_doc(h.node)]
+                        for b in body:
+                            ast.copy_location(b, st)
+                            for x in ast.walk(b):
+                                if not hasattr(x, "lineno"):
+                                    x.lineno = st.lineno
+                        return body
+            return st
+    node = Inl().visit(node)
+    ast.fix_missing_locations(node)
+    return node
 
 
 def _branch_kind(fn_node, node):
